@@ -507,5 +507,20 @@ ADDENDA = {
 _LARGE = ' One case in 250 of the shared pair generator (C01, C02, C07), one in 50 (C12), one in 60 (C14) and one history in 25 (C17) uses operands of realistic size or with a node of high degree: star polygons of 40-180 vertices, a square with a grid of up to 49 holes (some touching at corners), zigzag line strings of 40-200 vertices, checkerboard MultiPolygons (members touching in points), fans of 8-40 segments / 4-23 triangles meeting in one point, MultiPoints of 50-300 points; partners: the same object, a slightly moved copy, a long line across, a rectangle over a quarter, one of its coordinates, a fan at one of its coordinates, another large shape moved onto it. Operands up to 700 segments are judged by the same exact oracle.'
 for _p in ['C01', 'C02', 'C07', 'C12', 'C14', 'C17']:
     ADDENDA[_p] = ADDENDA.get(_p, '') + _LARGE
+_LONG = {
+    'C02': ' For an operand of 31-400 segments the middle of every segment and every vertex is queried once (coordinate_position, intersects, contains).',
+    'C04': ' One case in 300: unary_union of 60-150 grid cells (apart or edge-sharing, a quarter with a hole, optionally inside the hole of a frame), and clip of a track of 17-1030 coordinates zig-zagging across a comb / plate / star; one case in 60: operands with many rings or members against derived partners.',
+    'C05': ' One case in 400: a ring of 17-1030 coordinates (star, or rectangle with a vertex at every lattice step) as shell, as hole of a frame, or as third member of a MultiPolygon.',
+    'C06': ' The many-coordinates stratum includes polygons whose shell or hole has 17-1030 coordinates and zig-zag line strings of that length.',
+    'C07': ' One case in 200: 17-100 small members on a grid (MultiPolygon / MultiLineString / MultiPoint / GeometryCollection) against a street between two rows, a short segment in a gap or a point; or an operand of realistic size with a derived partner.',
+    'C08': ' minimum_rotated_rect: a miss of at most 2^20 u E on an input whose exact hull is thinner than 2^-30 of its length is the recorded finding mrr_rotates_about_centroid_of_thin_hull.',
+    'C14': ' Rings of realistic length also carry planted defects: a spike (out and back, vertical / horizontal / oblique), a small loop returning to a vertex, a moved vertex.',
+    'C15': ' One open line in 200 is a track of 17-1030 segments.',
+    'C18': ' One case in 500: rings of 17-1024 open coordinates in an exactly full or a roomy Vec through ten closing entry points (Polygon::new exterior / interior, exterior_mut, try_exterior_mut Ok / Err, interiors_mut, interiors_push x2, LineString::close, clone().close).',
+    'C19': ' One case in 150: components of 17-1030 coordinates (LineString, MultiPoint, ring as shell / hole, member of a MultiLineString or collection) whose extreme coordinates sit anywhere, the very last one included.',
+    'C20': ' Results with 70 and 150+ members (unary_union and the four operations on two shifted grids of squares) must keep their member order.',
+}
+for _p, _t in _LONG.items():
+    ADDENDA[_p] = ADDENDA.get(_p, '') + _t
 for _p, _t in ADDENDA.items():
     PROPS[_p]['rule'] = PROPS[_p]['rule'] + ' ' + _t
